@@ -227,9 +227,9 @@ def write_evidence(pid, tier, seed, ev, out, wall):
         samples.append(s)
     level = prop["level"]
     cov = {
-        "evaluations": n_harness + tres.get("obligations", 0),
+        "evaluations": n_harness + tres.get("obligations", 0) + (tres.get("programs", 0) if not tres.get("obligations", 0) else 0),
         "distinct_nontrivial": sat_cov + tres.get("distinct_nontrivial", 0),
-        "rule": "evaluations = solver verdicts obtained in this run (one per Kani harness = one CBMC run over all inputs within the bounds, plus one per z3 obligation of engine T); "
+        "rule": "evaluations = solver verdicts obtained in this run (one per Kani harness = one CBMC run over all inputs within the bounds, plus one per z3 obligation of engine T; for the engine-T parts that compare the real encoder's output syntactically - C05 byte equality, C15 exact splice, C22 presence - one per program run through the real pipeline); "
                 "distinct_nontrivial = satisfied reachability witnesses (kani::cover! other than the trivial end-of-harness one) plus, for engine T, distinct (instrumented body, specification) pairs whose specification trace is non-empty",
         "samples": samples,
         "cbmc_property_checks": n_checks,
